@@ -86,6 +86,11 @@ func newTable(
 func (t *table) execBinaryOperation(lhs model.StepVector, rhs model.StepVector, returnBool bool) (model.StepVector, *errManyToManyMatch) {
 	ts := lhs.T
 	step := t.pool.GetStepVector(ts)
+	// Same as the Prometheus engine: if one side has no samples at this step
+	// nothing can match, and nothing is ambiguous either.
+	if len(lhs.SampleIDs) == 0 || len(rhs.SampleIDs) == 0 {
+		return step, nil
+	}
 
 	lhsIndex, rhsIndex := t.highCardOutputIndex, t.lowCardOutputIndex
 	if t.card == parser.CardOneToMany {
